@@ -4,6 +4,7 @@ import json
 import os
 import random
 import re
+import sys
 
 import vlib
 from vlib import Pos, fmt_mv, log, mv_key, parse_moves, run_driver, run_driver_par, run_hx, run_hx_par, sq_name
@@ -369,11 +370,34 @@ def match_F1(f):
     return f.get("what") == "successor differs from the rules" and f.get("fields") == ["fullmove"]
 
 
+def special_key_positions(res, both=False):
+    """positions one quiet move away from a position whose key is a special value (0 = what an empty table slot holds, 1, 2^64-1),
+    constructed for the CURRENT key table by linear algebra over GF(2) (tools/key_target.py); `both`: also the special positions"""
+    import subprocess
+    out = []
+    # ONE construction per special value: two different constructed positions with the same special key would be a collision made on
+    # purpose (any 64-bit key collides somewhere), not something met by exploration
+    for seed in (res.seed % 1000,):
+        try:
+            p = subprocess.run([sys.executable, os.path.join(vlib.VERIF, "tools", "key_target.py"), "--target", "0", "--target", "1",
+                                "--target", str(2 ** 64 - 1), "--seconds", "8", "--seed", str(seed), "--no-cache"],
+                               capture_output=True, text=True, timeout=120, env=vlib.ENV)
+            for l in p.stdout.splitlines():
+                out.append(json.loads(l))
+        except Exception:
+            pass
+    fens = [r["fen_before"] for r in out] + ([r["fen_after"] for r in out] if both else [])
+    ps = [l for l in run_driver(["feninw " + f for f in fens]) if l not in ("PANIC", "bad-op")]
+    res.count("special_key_positions", len(ps))
+    return ps
+
+
 def run_C04(res):
     g, pl, sp, co = sizes(res, (14, 60, 1200, 250), (250, 120, 40000, 4000))
     ps = gen_positions(res, g, pl, sp, co, null=4)
     res.coverage["rule"] = ("every legal move of every generated position: stored key = recomputed key, predicted key = key after the move; null moves; "
                             "interning of (placement, turn, rights, ep file) -> key over everything met (functional and injective)")
+    ps = special_key_positions(res) + ps
     ind = run_driver_par(["sind " + p for p in ps])
     ps = [p for p, d in zip(ps, ind) if d.split()[0] == "1" and d.split()[1] == "1"]
     items = moves_requests(res, ps)
@@ -842,6 +866,21 @@ def run_C18(res):
                 ops.append("l")
         reqs.append(f"tt {typ} {mb} " + " ".join(ops))
         plans.append((typ, mb, ops))
+    if res.tier == "thorough":
+        # the largest sizes the Hash option admits (4096 MB is the clamp): length only, one at a time (4 GB each)
+        for typ in ("u64", "tte"):
+            for mb in (4096, 4095, 2048):
+                esz = 8 if typ == "u64" else esz_tte
+                big = f"tt {typ} {mb} l p:{(mb * 1024 * 1024 // esz) - 1} a:{(mb * 1024 * 1024 // esz) - 1}:77 p:{(mb * 1024 * 1024 // esz) - 1}"
+                out = run_hx([big])[0]
+                mo = run_driver([big])[0]
+                res.evaluations += 1
+                res.count("huge_table_requests")
+                if out != mo:
+                    res.disagree("Hashtable at the largest sizes", big, out[:120], mo[:120])
+                if not out.startswith(f"l{mb * 1024 * 1024 // esz} "):
+                    res.fail("a table created with the largest admitted size does not have megabytes*2^20/entry-size slots", request=big, observed=out[:80],
+                             expected_slots=mb * 1024 * 1024 // esz)
     impl = run_hx_par(reqs)
     model = run_driver_par(reqs)
     compare(res, "Hashtable operation sequences", reqs, impl, model)
